@@ -7,12 +7,17 @@ from decimal import Decimal
 from vlib import common, tla
 
 KINDS = ["json", "sse", "stateless", "nosession", "legacy", "stdio"]
-KEY = {"initialize": "protocolVersion", "tools/call": "name", "prompts/get": "name", "resources/read": "uri"}
+KEY = {"initialize": "protocolVersion", "tools/call": "name", "prompts/get": "name", "resources/read": "uri",
+       "resources/subscribe": "uri", "resources/unsubscribe": "uri", "completion/complete": "ref"}
 OKPARAMS = {
     "initialize": {"protocolVersion": "2025-03-26", "clientInfo": {"name": "p", "version": "0"}, "capabilities": {}},
     "tools/call": {"name": "echo", "arguments": {"nonce": "n1"}},
     "prompts/get": {"name": "p-ok", "arguments": {"a": "v"}},
     "resources/read": {"uri": "r://ok"},
+    "resources/subscribe": {"uri": "r://ok"},
+    "resources/unsubscribe": {"uri": "r://ok"},
+    "completion/complete": {"ref": {"type": "ref/prompt", "name": "p-ok"}, "argument": {"name": "a", "value": "v"}},
+    "logging/setLevel": {"level": "info"},
 }
 HANDLER = {
     ("tools/call", "h:error"): ("t-err", "boom-"), ("tools/call", "h:isError"): ("t-iserr", ""), ("tools/call", "h:nil"): ("t-nil", ""),
@@ -93,7 +98,7 @@ def body_for(m, pc, idv):
         elif pc == "keyEmpty":
             p[k] = ""
         elif pc == "unknownEntry":
-            p[k] = "r://no-such" if k == "uri" else "no-such-entry"
+            p[k] = "r://no-such" if k == "uri" else ({"type": "ref/prompt", "name": "no-such-entry"} if k == "ref" else "no-such-entry")
         elif pc == "argsArray":
             p["arguments"] = [1]
         elif pc == "argsString":
